@@ -258,6 +258,88 @@ pub fn catalogue() -> Vec<Builtin> {
         expect_eq!(cx, "b_join", f.call(l, rs(&sep)).to_string(), parts.join(&sep), "{parts:?}, {sep:?}");
         Ok(())
     }});
+    // ---------------------------------------------------------------- lists
+    v.push(Builtin { name: "l_swap_get", src: "fn l_swap_get(l: List[String], i: u64, j: u64, k: u64) -> String? { l.swap(i, j); l.get(k) }", run: |cx| {
+        let n = [0usize, 1, 2, 3, 4, 5, 8][cx.c.below(7)];
+        let mut parts: Vec<String> = (0..n).map(|i| format!("{}{i}", gen_string(cx.c))).collect();
+        let l: List<RotoString> = parts.iter().map(|p| rs(p)).collect();
+        let (i, j, k) = (gen_index(cx.c, n), gen_index(cx.c, n), gen_index(cx.c, n));
+        let f = get!(cx, "l_swap_get", fn(List<RotoString>, u64, u64, u64) -> Option<RotoString>);
+        cx.nontrivial = i as usize >= n.saturating_sub(1) || j as usize >= n.saturating_sub(1);
+        if let (Ok(i), Ok(j)) = (usize::try_from(i), usize::try_from(j)) {
+            if i < n && j < n {
+                parts.swap(i, j);
+            }
+        }
+        let exp = usize::try_from(k).ok().and_then(|k| parts.get(k).cloned());
+        expect_eq!(cx, "l_swap_get", f.call(l.clone(), i, j, k).map(|x| x.to_string()), exp, "{n} elements, {i}, {j}, {k}");
+        // the argument list is shared: the swap is visible through the Rust handle too
+        expect_eq!(cx, "l_swap_get", list_strings(&l), parts.clone(), "{n} elements, {i}, {j}: contents after the call");
+        Ok(())
+    }});
+    v.push(Builtin { name: "l_push_len", src: "fn l_push_len(l: List[String], x: String, times: u64) -> u64 { let k = 0; while k < times { l.push(x); k = k + 1; } l.len() }", run: |cx| {
+        let n = [0usize, 1, 3, 4, 7, 8][cx.c.below(6)];
+        let mut parts: Vec<String> = (0..n).map(|_| gen_string(cx.c)).collect();
+        let l: List<RotoString> = parts.iter().map(|p| rs(p)).collect();
+        let x = gen_string(cx.c);
+        let times = cx.c.below(10) as u64;
+        let f = get!(cx, "l_push_len", fn(List<RotoString>, RotoString, u64) -> u64);
+        cx.nontrivial = times > 0;
+        for _ in 0..times {
+            parts.push(x.clone());
+        }
+        expect_eq!(cx, "l_push_len", f.call(l.clone(), rs(&x), times), parts.len() as u64, "{n} elements, {x:?}, {times}");
+        expect_eq!(cx, "l_push_len", list_strings(&l), parts.clone(), "{n} elements: contents after the pushes");
+        Ok(())
+    }});
+    v.push(Builtin { name: "l_find", src: "fn l_find(l: List[String], x: String) -> u64? { if l.contains(x) { l.index(x) } else { if l.is_empty() { Option.None } else { Option.Some(l.len() + 1000) } } }", run: |cx| {
+        let n = cx.c.below(6);
+        let parts: Vec<String> = (0..n).map(|_| gen_string(cx.c)).collect();
+        let l: List<RotoString> = parts.iter().map(|p| rs(p)).collect();
+        let x = if n > 0 && cx.c.chance(160) { parts[cx.c.below(n)].clone() } else { gen_string(cx.c) };
+        let f = get!(cx, "l_find", fn(List<RotoString>, RotoString) -> Option<u64>);
+        cx.nontrivial = n > 1;
+        let exp = match parts.iter().position(|p| *p == x) {
+            Some(i) => Some(i as u64),
+            None if n == 0 => None,
+            None => Some(n as u64 + 1000),
+        };
+        expect_eq!(cx, "l_find", f.call(l, rs(&x)), exp, "{parts:?}, {x:?}");
+        Ok(())
+    }});
+    v.push(Builtin { name: "l_concat", src: "fn l_concat(a: List[String], b: List[String], k: u64) -> String? { let c = a.concat(b) + a; c.get(k) }", run: |cx| {
+        let (n, m) = (cx.c.below(5), cx.c.below(5));
+        let pa: Vec<String> = (0..n).map(|i| format!("a{i}{}", gen_string(cx.c))).collect();
+        let pb: Vec<String> = (0..m).map(|i| format!("b{i}{}", gen_string(cx.c))).collect();
+        let (a, b): (List<RotoString>, List<RotoString>) = (pa.iter().map(|p| rs(p)).collect(), pb.iter().map(|p| rs(p)).collect());
+        let k = gen_index(cx.c, 2 * n + m);
+        let f = get!(cx, "l_concat", fn(List<RotoString>, List<RotoString>, u64) -> Option<RotoString>);
+        cx.nontrivial = n + m > 0;
+        let mut all = pa.clone();
+        all.extend(pb.iter().cloned());
+        all.extend(pa.iter().cloned());
+        let exp = usize::try_from(k).ok().and_then(|k| all.get(k).cloned());
+        expect_eq!(cx, "l_concat", f.call(a.clone(), b.clone(), k).map(|x| x.to_string()), exp, "{pa:?}, {pb:?}, {k}");
+        expect_eq!(cx, "l_concat", (list_strings(&a), list_strings(&b)), (pa.clone(), pb.clone()), "operands after concat");
+        Ok(())
+    }});
+    v.push(Builtin { name: "l_u64_swap_get", src: "fn l_u64_swap_get(l: List[u64], i: u64, j: u64, k: u64) -> u64? { l.swap(i, j); l.get(k) }", run: |cx| {
+        let n = [0usize, 1, 2, 4, 5, 8, 9][cx.c.below(7)];
+        let mut parts: Vec<u64> = (0..n).map(|i| 100 + i as u64).collect();
+        let l: List<u64> = parts.iter().copied().collect();
+        let (i, j, k) = (gen_index(cx.c, n), gen_index(cx.c, n), gen_index(cx.c, n));
+        let f = get!(cx, "l_u64_swap_get", fn(List<u64>, u64, u64, u64) -> Option<u64>);
+        cx.nontrivial = i as usize >= n.saturating_sub(1) || j as usize >= n.saturating_sub(1);
+        if let (Ok(i), Ok(j)) = (usize::try_from(i), usize::try_from(j)) {
+            if i < n && j < n {
+                parts.swap(i, j);
+            }
+        }
+        let exp = usize::try_from(k).ok().and_then(|k| parts.get(k).copied());
+        expect_eq!(cx, "l_u64_swap_get", f.call(l.clone(), i, j, k), exp, "{n} elements, {i}, {j}, {k}");
+        expect_eq!(cx, "l_u64_swap_get", l.to_vec(), parts.clone(), "contents after the call");
+        Ok(())
+    }});
     // ---------------------------------------------------------------- views
     v.push(Builtin { name: "b_bytes_len", src: "fn b_bytes_len(s: String) -> u64 { s.bytes().len() }", run: |cx| {
         let s = gen_string(cx.c);
